@@ -509,6 +509,16 @@ class ModuleLoader:
         def zeros(interp, a, k):
             return empty(interp, a, k, zero=True)
 
+        def full(interp, a, k):
+            """np.full(shape, fill_value, dtype=...): a new array with every element the fill value"""
+            fill = a[1] if len(a) > 1 else k.get("fill_value")
+            dt = k.get("dtype", a[2] if len(a) > 2 else None)
+            if dt is None:
+                raise OutOfReach("np.full without dtype")
+            out = empty(interp, [a[0]], dict(dtype=dt))
+            npmodel._fill(interp, out, fill)
+            return out
+
         def masked_invalid(interp, a, k):
             x = a[0]
             if not isinstance(x, VNd):
@@ -548,7 +558,7 @@ class ModuleLoader:
         rec = VModule("numpy.rec", {"fromarrays": VBuiltin("fromarrays", fromarrays)})
         from . import eqmodel
         ns = {"dtype": VBuiltin("np.dtype", dtype), "frombuffer": VBuiltin("np.frombuffer", frombuffer), "array": VBuiltin("np.array", array),
-              "empty": VBuiltin("np.empty", empty), "zeros": VBuiltin("np.zeros", zeros), "nan": VFloat(NANW, "py"), "NaN": VFloat(NANW, "py"),
+              "empty": VBuiltin("np.empty", empty), "zeros": VBuiltin("np.zeros", zeros), "full": VBuiltin("np.full", full), "nan": VFloat(NANW, "py"), "NaN": VFloat(NANW, "py"),
               "ndarray": T_NDARRAY, "ma": ma, "rec": rec, "uint16": "<u2", "float32": "<f4", "int32": "<i4", "int16": "<i2", "uint32": "<u4",
               "float64": "<f8"}
         ns.update(eqmodel.numpy_ns(interp))
